@@ -11,9 +11,9 @@ package main
 import (
 	"fmt"
 	"go/constant"
-	"os"
 	"go/token"
 	"go/types"
+	"os"
 
 	"golang.org/x/tools/go/ssa"
 )
@@ -62,7 +62,9 @@ func (v evVal) String() string {
 }
 
 func evInt(i int64, t types.Type) evVal { return evVal{k: evConst, c: constant.MakeInt64(i), t: t} }
-func evBool(b bool) evVal               { return evVal{k: evConst, c: constant.MakeBool(b), t: types.Typ[types.Bool]} }
+func evBool(b bool) evVal {
+	return evVal{k: evConst, c: constant.MakeBool(b), t: types.Typ[types.Bool]}
+}
 
 // evStop is what a run ends with.
 type evStop struct {
